@@ -28,7 +28,7 @@ Definition get_staged_files_v0 (head : option (list (name * gentry))) (idx : ind
 
 (* every member of the set that resolved was kept under its resolved name *)
 Definition filter_by_set_v0 (canon : path -> option path) (files set : list path) : list path :=
-  filter (in_canonical_set canon (filter_map canon set)) files.
+  filter (resolves_into canon (filter_map canon set)) files.
 
 Definition staged_files_v0 canon (head : option (list (name * gentry))) (idx : index)
            (files : list path) : list path :=
@@ -38,3 +38,8 @@ Definition staged_files_v0 canon (head : option (list (name * gentry))) (idx : i
 Definition listed_run_v0 (R : Type) (eval : path -> option R) (canon : path -> option path)
            (set : option (list path)) (listed : list path) : list (path * R) * unit :=
   run_on R unit (list path) eval (fun _ => tt) listed listed.
+
+(* check_git_diff.rs after D34 and before fix D190: the set side was guarded against symbolic links,
+   the file side was not *)
+Definition filter_by_set_v1 (canon : path -> option path) (files set : list path) : list path :=
+  filter (resolves_into canon (filter_map (self_canonical canon) set)) files.
